@@ -245,6 +245,31 @@ func c12Encode(c *mc.Ctx, h *ref.PESHdr, what string, public bool) {
 			c.Rep.Report("encode-differs:"+fieldOf(what), det)
 		}
 	}
+	// leftover values behind cleared flags: a caller that strips a part from a demuxed header clears the
+	// flag that announces it and leaves the rest of the struct as it is. The encoding is that of the header
+	// without the part, and the announced lengths match the bytes written
+	if ref.HasOptHeader(h.StreamID) && (h.Ext != nil || h.PTS != nil || h.ESCR != nil) {
+		lh := fromRefPES(h)
+		o := lh.OptionalHeader
+		x := *h
+		if h.Ext != nil {
+			o.HasExtension = false // HasPrivateData, HasExtension2 ... stay set
+			x.Ext = nil
+		} else if h.ESCR != nil {
+			o.HasESCR = false // the ESCR value stays
+			x.ESCR = nil
+		} else {
+			o.PTSDTSIndicator = 0 // PTS / DTS values stay
+			x.PTS, x.DTS = nil, nil
+		}
+		want := x.Encode(nil, len(x.OptHeaderIfAny())+200)
+		got, n, err := astits.VerifWritePESHeader(lh, 200)
+		alt := x.Encode(nil, 0)
+		if err != nil || n != len(got) || (!bytes.Equal(got, want) && !(bytes.Equal(got, alt) && (h.StreamID >= 0xe0 && h.StreamID <= 0xef || h.StreamID == 0xfd))) {
+			c.Rep.Report("encode-differs:leftover-behind-cleared-flag", map[string]any{"kind": "pes", "what": what, "payload_len": 200, "bytes": mc.Hex(want), "message": fmt.Sprintf("a part whose flag is cleared (values left in the struct) changes the written header: n=%d err=%v\n got  %x\n want %x", n, err, got, want)})
+		}
+		c.Ev.Class("leftover-behind-cleared-flag", 1)
+	}
 	if public && ref.HasOptHeader(h.StreamID) {
 		// through Muxer.WriteData: reassemble the PES bytes from the packets
 		rw := NewRecWriter()
@@ -400,6 +425,30 @@ func checkC12(c *mc.Ctx) {
 			c.Ev.Class("payload-boundary", 1)
 		}
 	}
+	// the top of the 16-bit PES_packet_length range: exact lengths 65520..65535 (and through the Demuxer)
+	for l := 65520; l <= 65535; l++ {
+		for _, sid := range []uint8{0xc0, 0xe0} {
+			nb++
+			h := pesShape(1, sid)
+			payload := bytes.Repeat([]byte{byte(l)}, l-len(h.OptHeaderIfAny()))
+			b := h.Encode(payload, ref.LenExact)
+			var d *astits.PESData
+			var err error
+			if p := mc.Catch(func() { d, err = astits.VerifParsePESData(b) }); p != nil || err != nil || !bytes.Equal(dataOf(d), payload) || int(d.Header.PacketLength) != l {
+				c.Rep.Report("payload-boundary:length-near-65535", map[string]any{"kind": "pes", "bytes": mc.Hex(b[:64]), "message": fmt.Sprintf("PES_packet_length %d (exact): panic=%v err=%v, %d payload bytes delivered, want %d", l, p, err, len(dataOf(d)), len(payload))})
+			}
+			if l%5 == 0 {
+				cc := uint8(1)
+				ps := Packetize(SUnit{PID: 0x100, Bytes: b}, nil, &cc, false)
+				ps = append(ps, Packetize(PESUnit(0x100, sid, pesPayloadBytes(10), 5, true), nil, &cc, false)...)
+				out := DemuxBytes(EncodePkts(ps))
+				if len(out.Errs) > 0 || len(out.Data) != 2 || out.Data[0].PES == nil || !bytes.Equal(out.Data[0].PES.Data, payload) {
+					c.Rep.Report("payload-boundary:length-near-65535", map[string]any{"kind": "pes", "bytes": mc.Hex(b[:64]), "message": fmt.Sprintf("PES_packet_length %d through NextData: %d data, errs=%v", l, len(out.Data), errStrings(out.Errs))})
+				}
+			}
+			c.Ev.Class("payload-boundary", 1)
+		}
+	}
 	c.Ev.AddScenario(mc.Scenario{Name: "payload boundaries", SpaceSize: int64(nb), Executed: int64(nb), Exhaustive: true, Bound: "PES_packet_length 0, exact, exact-1, exact-20, header only, exact+1, exact+500 x 3 stream ids x 5 payload contents (ordinary, 0xFF tail, all 0xFF, all 0x00, start code first)"})
 
 	// timestamps through parse/write
@@ -449,7 +498,7 @@ func checkC12(c *mc.Ctx) {
 		}
 	}
 	c.Ev.AddScenario(mc.Scenario{Name: "Duration(): base alphabet x all 512 extensions", SpaceSize: int64(len(ts33Alpha)) * 512, Executed: int64(len(ts33Alpha)) * 512, Exhaustive: true})
-	c.Ev.Require("stream-id-without-optional-header", "payload-boundary")
+	c.Ev.Require("stream-id-without-optional-header", "payload-boundary", "leftover-behind-cleared-flag")
 }
 
 func dataOf(d *astits.PESData) []byte {
